@@ -17,7 +17,7 @@ use crate::voice::GenOpts;
 use crate::{ensure, fail};
 
 use super::c20::{special_f64, special_usize};
-use super::{no_custom, PropertyDef};
+use super::PropertyDef;
 
 pub fn def() -> PropertyDef {
     PropertyDef {
@@ -25,11 +25,12 @@ pub fn def() -> PropertyDef {
         level: "exploration",
         props: |_| vec![Box::new(SharedEngine) as Box<dyn DynProp>],
         extra,
-        replay_custom: no_custom,
+        replay_custom,
         assumptions: &[
             "the OS owns the thread interleaving: the harness only randomises start offsets (barrier + per-thread spin count from the case); a race with a very narrow window can be missed and a failing schedule is not replayable (the replay re-runs the same jobs)",
             "Engine: Send + Sync + Clone and SpeechGenerator: Send are checked at compile time by the probe crate harness/probes/send_sync (cargo check); the threaded check itself wraps &Engine in a ForceSync newtype so that it can observe a data race introduced with interior mutability",
             "reference = the same jobs run sequentially on a private clone of the engine",
+            "history independence is additionally checked against digests computed by a fresh child process (different order, no other history), which exposes hidden state keyed by only part of the inputs",
         ],
     }
 }
@@ -367,7 +368,245 @@ impl Prop for SharedEngine {
     }
 }
 
+// ---------------------------------------------------------------------------------------------
+// History independence against a fresh process
+
+#[derive(Debug, Clone, Serialize)]
+pub struct HistCase {
+    pub voice: VoiceChoice,
+    pub cond_a: Cond,
+    pub cond_b: Cond,
+    pub align_a: bool,
+    pub align_b: bool,
+    pub lines: Vec<String>,
+}
+
+pub fn decode_hist(t: &mut Tape) -> HistCase {
+    let voice = gen_voice_choice(t, 6, GenOpts { max_depth: 2, ..GenOpts::default() });
+    let (nstreams, rate0, fp0, nstate) = match &voice {
+        VoiceChoice::Generated(v) => (v.streams.len(), v.sampling_frequency, v.frame_period, v.num_states),
+        _ => (3, 48000, 240, 5),
+    };
+    let mut cond_a = gen_cond(t, nstreams);
+    if cond_a.speed < 0.5 {
+        cond_a.speed = 0.5;
+    }
+    // B differs from A in 1..3 generated fields
+    let mut cond_b = cond_a.clone();
+    let k = t.urange(1, 3);
+    for _ in 0..k {
+        match t.below(8) {
+            0 => cond_b.fperiod = Some(*t.pick(&[80usize, 120, 40, 240, 200])),
+            1 => cond_b.rate = Some(*t.pick(&[16000usize, 8000, 44100, 96000])),
+            2 => cond_b.speed = t.log_uniform(0.5, 2.0),
+            3 => cond_b.alpha = Some(t.uniform(0.0, 0.8)),
+            4 => cond_b.half_tone = t.uniform(-12.0, 12.0),
+            5 => cond_b.beta = t.uniform(0.0, 0.6),
+            6 => cond_b.msd_threshold[1] = Some(t.unit()),
+            _ => cond_b.gv_weight[t.below(nstreams)] = Some(t.uniform(0.0, 2.0)),
+        }
+    }
+    let align_a = t.chance(0.6);
+    let align_b = if t.chance(0.3) { !align_a } else { align_a };
+    let n = t.urange(1, 5);
+    let (labels, _) = gen_label_lines(t, n, false);
+    let rate = cond_a.rate.unwrap_or(rate0);
+    let fp = cond_a.fperiod.unwrap_or(fp0);
+    let frame_100ns = fp as f64 * 1e7 / rate as f64;
+    let typical = nstate as f64 * t.log_uniform(0.8, 3.0);
+    let times = if t.chance(0.75) { super::c09::gen_text_times(t, n, frame_100ns, typical, 2.0e8) } else { vec![None; n] };
+    HistCase { voice, cond_a, cond_b, align_a, align_b, lines: super::c09::timed_lines(&labels, &times) }
+}
+
+fn digest(w: &[f64]) -> u64 {
+    let mut h = std::collections::hash_map::DefaultHasher::new();
+    use std::hash::Hasher;
+    h.write_usize(w.len());
+    for x in w {
+        h.write_u64(if x.is_nan() { 0x7ff8_0000_0000_0000 } else { x.to_bits() });
+    }
+    h.finish()
+}
+
+fn hist_engine(c: &HistCase, b: bool) -> Result<Engine, Failure> {
+    let (mut e, _) = build_engine(&c.voice)?;
+    if b {
+        c.cond_b.apply(&mut e);
+        e.condition.set_phoneme_alignment_flag(c.align_b);
+    } else {
+        c.cond_a.apply(&mut e);
+        e.condition.set_phoneme_alignment_flag(c.align_a);
+    }
+    Ok(e)
+}
+
+fn hist_too_long(c: &HistCase) -> bool {
+    for b in [false, true] {
+        let Ok(e) = hist_engine(c, b) else { return true };
+        match catch(|| e.generator(c.lines.as_slice()).map(|g| crate::engine_util::trajectories(&g).lf0.len() * e.condition.get_fperiod())) {
+            Ok(Ok(n)) if n <= 400_000 => {}
+            _ => return true,
+        }
+    }
+    false
+}
+
+/// Child side: for each tape print "<digest A> <digest B>" computed in the order A, B
+/// (or "skip"). The parent computes them in the order B, A, B after other work.
+pub fn fresh_digests(tapes: &[Vec<u32>]) -> Vec<String> {
+    tapes
+        .iter()
+        .map(|tape| {
+            let mut t = Tape::new(tape);
+            let c = decode_hist(&mut t);
+            if hist_too_long(&c) {
+                return "skip".to_string();
+            }
+            let r = catch(|| -> Result<(u64, u64), Failure> {
+                let a = hist_engine(&c, false)?.synthesize(c.lines.as_slice()).map_err(|e| Failure::new("synthesize-error", e.to_string()))?;
+                let b = hist_engine(&c, true)?.synthesize(c.lines.as_slice()).map_err(|e| Failure::new("synthesize-error", e.to_string()))?;
+                Ok((digest(&a), digest(&b)))
+            });
+            match r {
+                Ok(Ok((a, b))) => format!("{} {}", a, b),
+                _ => "error".to_string(),
+            }
+        })
+        .collect()
+}
+
+const HIST_RULE: &str = "history independence against a FRESH PROCESS: case = (voice, condition A, condition B differing from A in 1..3 fields such as frame period / sampling rate / speed / alpha / thresholds / alignment flag, 1..5 label lines mostly with time stamps). A child process computes digest(A(L)), digest(B(L)) in that order with no other history; the parent - after all other C03 work, i.e. with a long history - computes B(L), A(L), B(L) on separately built engines and must obtain the same digests. Detects hidden state keyed by only a part of the inputs (e.g. a cache keyed by the label text). Non-trivial: every compared case; distinct by case";
+
+fn history_independence(s: &mut Session) {
+    use proptest::strategy::{Strategy, ValueTree};
+    let n = s.tier.pick(400, 6000);
+    let mut runner = proptest::test_runner::TestRunner::new(proptest::test_runner::Config {
+        rng_seed: proptest::test_runner::RngSeed::Fixed(crate::util::hash64(&(s.seed, "c03-history"))),
+        failure_persistence: None,
+        ..Default::default()
+    });
+    let strat = crate::tapegen::TapeStrategy { len: 9000 };
+    let tapes: Vec<Vec<u32>> = (0..n).filter_map(|_| strat.new_tree(&mut runner).ok().map(|t| t.current())).collect();
+    // hand the tapes to a fresh process
+    let file = crate::util::scratch_dir().join("c03-tapes.json");
+    if std::fs::write(&file, serde_json::to_string(&tapes).unwrap_or_default()).is_err() {
+        s.notes.push("history-independence: cannot write the tape file".into());
+        return;
+    }
+    let exe = match std::env::current_exe() {
+        Ok(e) => e,
+        Err(_) => return,
+    };
+    let out = std::process::Command::new(exe).args(["C03", "--fresh-digests"]).arg(&file).output();
+    let lines: Vec<String> = match out {
+        Ok(o) if o.status.success() => String::from_utf8_lossy(&o.stdout).lines().filter(|l| !l.is_empty()).map(|l| l.to_string()).collect(),
+        _ => {
+            s.notes.push("history-independence: the fresh-process child failed (not counted)".into());
+            return;
+        }
+    };
+    if lines.len() != tapes.len() {
+        s.notes.push(format!("history-independence: child returned {} results for {} cases (not counted)", lines.len(), tapes.len()));
+        return;
+    }
+    // parent: different order, long history. 16 worker threads share the process-wide history.
+    let results: Vec<Option<Result<(), Failure>>> = std::thread::scope(|sc| {
+        let chunks: Vec<_> = tapes.chunks(tapes.len().div_ceil(16).max(1)).zip(lines.chunks(tapes.len().div_ceil(16).max(1))).collect();
+        let hs: Vec<_> = chunks
+            .into_iter()
+            .map(|(tp, ln)| {
+                sc.spawn(move || {
+                    tp.iter()
+                        .zip(ln)
+                        .map(|(tape, line)| {
+                            let mut it = line.split(' ');
+                            let (Some(da), Some(db)) = (it.next().and_then(|x| x.parse::<u64>().ok()), it.next().and_then(|x| x.parse::<u64>().ok())) else {
+                                return None;
+                            };
+                            let mut t = Tape::new(tape);
+                            let c = decode_hist(&mut t);
+                            let r = catch(|| -> Result<(), Failure> {
+                                let eb = hist_engine(&c, true)?;
+                                let ea = hist_engine(&c, false)?;
+                                let run = |e: &Engine| e.synthesize(c.lines.as_slice()).map(|w| digest(&w)).map_err(|e| Failure::new("synthesize-error", e.to_string()));
+                                let b1 = run(&eb)?;
+                                let a1 = run(&ea)?;
+                                let b2 = run(&eb)?;
+                                ensure!(a1 == da, "history-dependence", "condition A after the same labels were synthesized under condition B: waveform differs from the one a fresh process computes (labels {:?})", c.lines);
+                                ensure!(b1 == db && b2 == db, "history-dependence", "condition B: waveform differs from the one a fresh process computes after A (labels {:?})", c.lines);
+                                Ok(())
+                            });
+                            Some(match r {
+                                Ok(r) => r,
+                                Err(p) => Err(Failure::new(p.signature(), p.msg)),
+                            })
+                        })
+                        .collect::<Vec<_>>()
+                })
+            })
+            .collect();
+        hs.into_iter().flat_map(|h| h.join().unwrap_or_default()).collect()
+    });
+    for (tape, r) in tapes.iter().zip(results) {
+        match r {
+            None => {
+                let rep = Report::rejected("too-long-or-error-in-child");
+                s.record("history-independence", HIST_RULE, crate::util::hash64(tape), &rep, || json!("skipped"));
+            }
+            Some(Ok(())) => {
+                let mut rep = Report::new();
+                rep.nontrivial = true;
+                let mut t = Tape::new(tape);
+                let c = decode_hist(&mut t);
+                rep.class_if(c.lines.iter().any(|l| l.contains(' ')), "timed-labels");
+                rep.class_if(c.align_a || c.align_b, "alignment-on");
+                rep.class_if(c.cond_a.fperiod != c.cond_b.fperiod || c.cond_a.rate != c.cond_b.rate, "frame-rate-differs");
+                s.record("history-independence", HIST_RULE, crate::util::hash64(tape), &rep, || serde_json::to_value(&c).unwrap_or(json!(null)));
+            }
+            Some(Err(f)) => {
+                let mut t = Tape::new(tape);
+                let c = decode_hist(&mut t);
+                if s.failure("history-independence", &f, json!({ "kind": "history", "tape": tape, "case": c })) {
+                    return;
+                }
+            }
+        }
+    }
+}
+
+fn replay_custom(s: &mut Session, v: &serde_json::Value) -> bool {
+    if v.get("kind").and_then(|k| k.as_str()) != Some("history") {
+        eprintln!("unknown replay kind");
+        return false;
+    }
+    let tape: Vec<u32> = v["tape"].as_array().map(|a| a.iter().map(|x| x.as_u64().unwrap_or(0) as u32).collect()).unwrap_or_default();
+    let file = crate::util::scratch_dir().join("c03-replay-tapes.json");
+    let _ = std::fs::write(&file, serde_json::to_string(&vec![tape.clone()]).unwrap_or_default());
+    let Ok(exe) = std::env::current_exe() else { return false };
+    let out = std::process::Command::new(exe).args(["C03", "--fresh-digests"]).arg(&file).output();
+    let Ok(o) = out else { return false };
+    let line = String::from_utf8_lossy(&o.stdout).lines().next().unwrap_or("").to_string();
+    let mut it = line.split(' ');
+    let (Some(da), Some(db)) = (it.next().and_then(|x| x.parse::<u64>().ok()), it.next().and_then(|x| x.parse::<u64>().ok())) else { return false };
+    let mut t = Tape::new(&tape);
+    let c = decode_hist(&mut t);
+    let r = (|| -> Result<(), Failure> {
+        let eb = hist_engine(&c, true)?;
+        let ea = hist_engine(&c, false)?;
+        let run = |e: &Engine| e.synthesize(c.lines.as_slice()).map(|w| digest(&w)).map_err(|e| Failure::new("synthesize-error", e.to_string()));
+        let b1 = run(&eb)?;
+        let a1 = run(&ea)?;
+        ensure!(a1 == da && b1 == db, "history-dependence", "waveform depends on the history of the process (labels {:?})", c.lines);
+        Ok(())
+    })();
+    match r {
+        Ok(()) => true,
+        Err(f) => !s.failure("history-independence", &f, json!({ "kind": "history", "tape": tape, "case": c })),
+    }
+}
+
 fn extra(s: &mut Session) {
+    history_independence(s);
     // compile-time probe: Engine: Send + Sync + Clone, SpeechGenerator: Send
     let dir = verif_dir().join("harness/probes/send_sync");
     let out = std::process::Command::new("cargo")
